@@ -1071,12 +1071,17 @@ static int32 tls13WriteCertificate(ssl_t *ssl, sslBuf_t *out)
                     &extBuf);
             if (rc < 0)
             {
+                psDynBufUninit(&extBuf);
+                psDynBufUninit(&certListBuf);
+                psDynBufUninit(&certBuf);
                 return rc;
             }
 
             extData = psDynBufDetach(&extBuf, &extDataLen);
             if (extData == NULL)
             {
+                psDynBufUninit(&certListBuf);
+                psDynBufUninit(&certBuf);
                 ssl->err = SSL_ALERT_INTERNAL_ERROR;
                 return MATRIXSSL_ERROR;
             }
@@ -1099,6 +1104,7 @@ static int32 tls13WriteCertificate(ssl_t *ssl, sslBuf_t *out)
     certList = psDynBufDetachPsSize(&certListBuf, &certListLen);
     if (certList == NULL)
     {
+        psDynBufUninit(&certBuf);
         ssl->err = SSL_ALERT_INTERNAL_ERROR;
         return PS_MEM_FAIL;
     }
@@ -1555,6 +1561,7 @@ static inline
 void tls13ClearHsTemporaryState(ssl_t *ssl)
 {
     psFree(ssl->sec.tls13CvSig, ssl->hsPool);
+    ssl->sec.tls13CvSig = NULL;
     Memset(&ssl->sec.tls13KsState, 0, sizeof(ssl->sec.tls13KsState));
 }
 
